@@ -36,6 +36,8 @@ def start_budget(seconds):
     global BUDGET
     _T0[0] = _time.time()
     BUDGET = float(_os.environ.get('VERIF_GROUP_BUDGET', '0') or seconds)
+    from vsym import core as _core
+    _core.DEADLINE[0] = _T0[0] + BUDGET if BUDGET > 0 else 0.0
 
 
 def over_budget():
